@@ -25,6 +25,6 @@ def list_support_files(
     """
     Get a list of Python support modules embedded in this package.
     """
-    if resource_type not in (ResourceType.ANY, ResourceType.SERIALIZATION_SUPPORT):
+    if resource_type not in (ResourceType.ANY, ResourceType.TYPE_SUPPORT):
         return empty_list_support_files()
     return iter_package_resources(__name__, ".j2")
